@@ -5,6 +5,10 @@ from .board import Board
 from .gen import CODE, CODE_SZ
 
 
+EDGE_OPERANDS = [0, 1, 2, 31, 32, 33, 255, 256, 0x7FFF, 0x8000, 0xFFFF, 0x10000, 0x7FFFFFFF, 0x80000000, 0x80000001, 0xFFFFFFFF, 0xFFFFFFFE,
+                 0x00FF00FF, 0x80008000, 0x7FFF7FFF, 0xFF, 0x80, 0x7F]
+
+
 class StreamBoard(Board):
     """core spec extras: 'words': [...32-bit stream entries], 'force': {'it': v|None} or None, 'no_poke_below': addr"""
 
@@ -60,6 +64,10 @@ class StreamBoard(Board):
                 r.cpsr.it = ((p * 37) & 0xF0) | [0x4, 0xC, 0x2, 0xA, 0x6, 0xE, 0x1, 0x3, 0x5, 0x7, 0x9, 0xB, 0xD, 0xF][p % 14]
             else:
                 r.cpsr.it = force['it']
+        if force is not None and force.get('edge_regs') and (pos * 5 + force['edge_regs']) % 3:
+            # operand values at the edges of the 32-bit range (a pure function of the position in the word list)
+            for i in range(13):
+                r.set(i, EDGE_OPERANDS[(pos * 7 + i * 11 + force['edge_regs'] * 3 + (pos >> 4) * i) % len(EDGE_OPERANDS)])
         pc = r.pc_store_value()
         thumb = (r.cpsr.value >> 5) & 1
         pc &= ~1 if thumb else ~3
